@@ -208,13 +208,26 @@ def build(targets, quiet=False):
     if jobs and not quiet:
         log("[build] %d translation units for %d binaries (tree %s)" % (len(jobs), len(todo), tree_hash()))
     errors = []
+    killed = []
     with cf.ThreadPoolExecutor(max_workers=NCPU) as ex:
         futs = {ex.submit(_run_cmd, cmd): (t, obj, cmd) for t, obj, cmd in jobs}
         for f in cf.as_completed(futs):
             t, obj, cmd = futs[f]
             rc, err = f.result()
-            if rc != 0:
+            if rc != 0 and ("Killed signal" in err or "virtual memory exhausted" in err or "out of memory" in err.lower()):
+                killed.append((t, obj, cmd))  # the machine ran out of memory, not the code out of correctness
+            elif rc != 0:
                 errors.append((t.name, " ".join(cmd), err))
+    if killed and not errors:
+        if not quiet:
+            log("[build] %d compiler processes were killed (memory); retrying them four at a time" % len(killed))
+        with cf.ThreadPoolExecutor(max_workers=4) as ex:
+            futs = {ex.submit(_run_cmd, cmd): (t, obj, cmd) for t, obj, cmd in killed}
+            for f in cf.as_completed(futs):
+                t, obj, cmd = futs[f]
+                rc, err = f.result()
+                if rc != 0:
+                    errors.append((t.name, " ".join(cmd), err))
     if errors:
         name, cmd, err = errors[0]
         raise BuildError("compile failed for %s: %s" % (name, cmd), "\n".join(e for _, _, e in errors))
